@@ -204,6 +204,23 @@ def check_case(pr, method, rep=None, want=None, user_x0=False):
     exp_bounds = CAP.check_bounds(kw, pr, names, used, fails)
     CAP.check_x0(kw, exp_bounds, fails, ux0)
     CAP.check_constraints(kw, pr, names, fails, rep)
+    # ---- warm object: a second solve of the same problem must hand over the same (correct) model
+    if not user_x0:
+        try:
+            with Seam() as s2:
+                P.solve(**kwargs)
+            m2 = [cl for cl in s2.calls if cl.kind == "minimize"]
+            if m2:
+                f2 = Fails()
+                CAP.check_objective(m2[0].kw, pr, names, f2, rep)
+                CAP.check_bounds(m2[0].kw, pr, names, m2[0].kw.get("method"), f2)
+                CAP.check_constraints(m2[0].kw, pr, names, f2, rep)
+                for k_, d_ in f2:
+                    fails.add(k_ + ":repeat", **d_)
+            if rep:
+                rep.transitions += 1
+        except Exception as ex:
+            fails.add("exception:repeat-solve:" + type(ex).__name__, method=method, msg=str(ex)[:200])
     # ---- part 2: end to end against the raw call
     fun, jac, hess, cons = CAP.reference_callables(pr, names)
     try:
